@@ -703,7 +703,7 @@ def payload_cases(seed, n, prefix="pl"):
 
 # ---------------------------------------------------------------- waiting consumers (C06) and deletion (C12)
 
-def wait_enum_cases(prefix="wq"):
+def wait_enum_cases(prefix="wq", endpoint="~"):
     """Every combination of up to three waiting consumers (stream max 1 / stream max 10 / blocked Pull max 1 /
     blocked Pull max 5) with every availability event (publish 1, publish 3, nack, expiry, empty publish),
     observed after each event."""
@@ -725,7 +725,7 @@ def wait_enum_cases(prefix="wq"):
     n = 0
     for combo in combos:
         for evs in evseqs:
-            ops = ["SEED %d" % (n % 50), "CT " + T, "CS %s %s 10 ~" % (Sn, T)]
+            ops = ["SEED %d" % (n % 50), "CT " + T, "CS %s %s 10 %s" % (Sn, T, endpoint)]
             cons = []
             for i, k in enumerate(combo):
                 kind, mx = kinds[k]
@@ -1397,6 +1397,18 @@ def pull_limit_cases(prefix="pl300"):
         ops += ["ADV %d" % ((300 - t) * S - MS), "JOIN 100", "ADV %d" % (2 * MS), "JOIN 100", "PUB %s 0" % T,
                 "ADV %d" % (gap * S), "JOIN 100", "STATS " + Sn]
         cases.append(("%s-%d" % (prefix, gap), ops))
+    # nothing at all happens on the subscription (no event that could wake the Pull): the limit is a timer of its own
+    for pre in (0, 100, 299):
+        ops = ["SEED %d" % pre, "CT " + T, "CS %s %s 10 ~" % (Sn, T)]
+        if pre == 299:      # ordinary use first
+            ops += ["PUB %s 1 61 0" % T, "PULL %s 5 1" % Sn, "ACK %s 1 ^0" % Sn]
+        ops += ["BG 100 PULL %s 5 0" % Sn, "Q"]
+        if pre == 100:
+            ops += ["ADV %d" % (100 * S), "PUB %s 0" % T, "JOIN 100", "ADV %d" % (202 * S)]
+        else:
+            ops += ["ADV %d" % (299 * S), "JOIN 100", "ADV %d" % (3 * S)]
+        ops += ["JOIN 100", "STATS " + Sn]
+        cases.append(("%s-quiet-%d" % (prefix, pre), ops))
     return cases
 
 
@@ -1739,6 +1751,91 @@ def backed_up_stream_cases(prefix="bus"):
                     ops += ["PUB %s %d %s" % (T, later, " ".join("%s 0" % hx("b%d" % i) for i in range(later))), "Q", "STATS " + Sn]
                     ops += obs + ["STATS " + Sn]
                     cases.append(("%s-%d-%s-%d-w%d" % (prefix, first, waiter, later, prewait), ops))
+    return cases
+
+
+def late_ack_cases(seeds=range(0, 8), prefix="lack"):
+    """Acknowledge calls (library level, one per delivery, each awaited until it has returned) one second before the
+    deadline of the deliveries, then - with nothing run in between - the clock moves past that deadline: what was
+    acknowledged is never delivered again, whatever the actor finds first when it runs."""
+    T, Sn = hx(tname("p", "t")), hx(sname("p", "s"))
+    cases = []
+    for n in (1, 3, 6):
+        for seed in seeds:
+            ops = ["SEED %d" % seed, "CT " + T, "CS %s %s 10 ~" % (Sn, T),
+                   "PUB %s %d %s" % (T, n, " ".join("%s 0" % hx("m%d" % i) for i in range(n))), "PULL %s %d 1" % (Sn, n),
+                   "ADV %d" % (9000 * MS), "STATS " + Sn,
+                   "LACK %s %d %d %s" % (Sn, 3000 * MS, n, " ".join(hx(str(i + 1)) for i in range(n))),
+                   "STATS " + Sn, "PULL %s 10 1" % Sn, "ADV %d" % (11000 * MS), "PULL %s 10 1" % Sn, "STATS " + Sn]
+            cases.append(("%s-n%d-s%d" % (prefix, n, seed), ops))
+    return cases
+
+
+def big_pull_cases(prefix="bigpull"):
+    """Unary Pulls asking for more than 1000 messages on a backlog of more than 1000 (three Publish requests of 400..700),
+    acknowledged at once, then three more messages and Pulls across the ack deadline: every message is delivered
+    once, in publish order (what a Pull leases it also returns)."""
+    T, Sn = hx(tname("p", "t")), hx(sname("p", "s"))
+    cases = []
+    for per, ask in ((400, 2000), (400, 1100), (700, 65535), (334, 1001), (400, 1000)):
+        ops = ["SEED %d" % per, "CT " + T, "CS %s %s 10 ~" % (Sn, T)]
+        ops += ["PUBN %s %d 78" % (T, per)] * 3
+        ops += ["STATS " + Sn, "PULL %s %d 1" % (Sn, ask), "STATS " + Sn, "PUBN %s 3 79" % T, "PULL %s %d 1" % (Sn, ask),
+                "STATS " + Sn, "ADV %d" % (11000 * MS), "PULL %s %d 1" % (Sn, ask), "STATS " + Sn]
+        cases.append(("%s-%d-%d" % (prefix, per, ask), ops))
+    return cases
+
+
+def push_late_answer_cases(prefix="plate"):
+    """The real push loop at a 200..300 ms interval and an endpoint that accepts 700 ms after the request arrived - later
+    than one interval, far within the 10 s ack deadline: the message is POSTed once, its acceptance counts."""
+    T, P0 = hx(tname("p", "t")), hx(sname("p", "push0"))
+    cases = []
+    for interval, n in ((300, 1), (200, 3), (250, 2)):
+        rounds = 1500 // interval
+        ops = ["MODE push", "SEED 1", "CT " + T, "CS %s %s 10 %s" % (P0, T, hx("http://ep/e0")),
+               "EP 0 %d %s" % (4 * n, " ".join(["late200"] * (4 * n))),
+               "PUB %s %d %s" % (T, n, " ".join("%s 0" % hx("m%d" % i) for i in range(n))),
+               "LOOP %d %d" % (interval, rounds), "STATS " + P0, "PULL %s 10 1" % P0]
+        cases.append(("%s-%d-%d" % (prefix, interval, n), ops))
+    return cases
+
+
+def expiry_with_backlog_cases(prefix="exb"):
+    """A lease runs out while the subscription has unpulled messages (published later, left over by a small Pull, or
+    nacked) and nobody pulls: 250 ms after the deadline the delivery is no longer outstanding, and the next Pull
+    returns the message."""
+    T, Sn = hx(tname("p", "t")), hx(sname("p", "s"))
+    head = ["CT " + T, "CS %s %s 10 ~" % (Sn, T)]
+    tail = ["STATS " + Sn, "PULL %s 10 1" % Sn, "STATS " + Sn, "ADV %d" % (10250 * MS), "STATS " + Sn, "PULL %s 10 1" % Sn]
+    bodies = {
+        "later": ["PUB %s 1 61 0" % T, "PULL %s 1 1" % Sn, "ADV %d" % (5000 * MS), "PUB %s 1 62 0" % T, "ADV %d" % (4999 * MS),
+                  "STATS " + Sn, "ADV %d" % (251 * MS)],
+        "leftover": ["PUB %s 2 61 0 62 0" % T, "PULL %s 1 1" % Sn, "ADV %d" % (9999 * MS), "STATS " + Sn, "ADV %d" % (251 * MS)],
+        "nacked": ["PUB %s 2 61 0 62 0" % T, "PULL %s 2 1" % Sn, "MOD %s 0 1 ^0" % Sn, "ADV %d" % (10250 * MS)],
+        "three": ["PUB %s 3 61 0 62 0 63 0" % T, "PULL %s 1 1" % Sn, "ADV %d" % (2000 * MS), "PULL %s 1 1" % Sn, "ADV %d" % (8250 * MS),
+                  "STATS " + Sn, "ADV %d" % (2000 * MS)],
+        "many": ["PUBN %s 40 78" % T, "PULL %s 7 1" % Sn, "ADV %d" % (3000 * MS), "PUBN %s 5 79" % T, "ADV %d" % (7250 * MS)],
+    }
+    return [("%s-%s-s%d" % (prefix, k, seed), ["SEED %d" % seed] + head + b + tail) for k, b in bodies.items() for seed in (1, 2, 3)]
+
+
+def stale_topic_delete_cases(prefix="xdt"):
+    """Two holders of a topic's handle (two DeleteTopic calls that both looked the name up): the first deletes, the name
+    is created again, the second deletes (XDT, library level).  Per name, successful creates minus successful deletes
+    says whether the topic exists afterwards - for Get, List, a further create, a publish."""
+    T, Sn = hx(tname("p", "t")), hx(sname("p", "s"))
+    cases = []
+    for withsub in (0, 1):
+        for again in (0, 1):
+            ops = ["SEED %d" % (withsub * 2 + again), "CT " + T]
+            if withsub:
+                ops += ["CS %s %s 10 ~" % (Sn, T)]
+            ops += ["XDT " + T, "GT " + T, "LT %s 0 -" % hx("projects/p"), "CT " + T, "PUB %s 1 61 0" % T]
+            if again:
+                ops += ["XDT " + T, "GT " + T, "CT " + T]
+            ops += ["DT " + T, "GT " + T]
+            cases.append(("%s-%d-%d" % (prefix, withsub, again), ops))
     return cases
 
 
